@@ -1,0 +1,60 @@
+//go:build verif
+// +build verif
+
+package routetab
+
+import (
+	"time"
+
+	"github.com/gauss-project/aurorafs/pkg/boson"
+	"github.com/gauss-project/aurorafs/pkg/storage"
+)
+
+// This file only exists under the build tag "verif". It exports, for external runtime
+// monitors, the constructor of the unexported route table and the two unexported
+// operations on it that are otherwise only reachable through Service.
+
+// VerifNewTable constructs an empty route table over store exactly as Service does.
+func VerifNewTable(self boson.Address, store storage.StateStorer) *Table {
+	return newRouteTable(self, store)
+}
+
+// VerifUpdateUsedTime is updateUsedTime (the "route was used" refresh done by relaying).
+func (t *Table) VerifUpdateUsedTime(target, neighbor boson.Address) {
+	t.updateUsedTime(target, neighbor)
+}
+
+// VerifAgePath moves the last-used time of the stored path with exactly these items d
+// into the past (what the passing of d of idle time does) and reports whether such a
+// path is held in memory.
+func (t *Table) VerifAgePath(items []boson.Address, d time.Duration) bool {
+	pathKey, _ := generatePathItems(convItemsToBytes(items))
+	v, ok := t.paths.Load(pathKey)
+	if !ok {
+		return false
+	}
+	p := v.(*Path)
+	p.UsedTime = p.UsedTime.Add(-d)
+	return true
+}
+
+// VerifTable returns the route table of a running service.
+func (s *Service) VerifTable() *Table { return s.routeTable }
+
+// VerifAllPaths returns every path the table currently holds, including paths whose
+// routes were displaced by newer ones (those are not reachable through Get).
+func (t *Table) VerifAllPaths() (out []*Path) {
+	t.paths.Range(func(_, v interface{}) bool {
+		out = append(out, v.(*Path))
+		return true
+	})
+	return out
+}
+
+// VerifSetFindTimeout replaces the default FindRoute timeout (used by the nested
+// discovery of GetNextHopRandomOrFind); the returned function restores it.
+func VerifSetFindTimeout(d time.Duration) (restore func()) {
+	old := findTimeOut
+	findTimeOut = d
+	return func() { findTimeOut = old }
+}
